@@ -91,11 +91,15 @@ impl LocalUsageAnalysis {
     fn calculate_for_function(id: FunctionId, module: &Module) -> LocalUsageAnalysis {
         let mut usage = LocalUsageAnalysis::default();
 
-        // Gather all usage within the function body
-        // We do not currently consider function argument default values
+        // Gather all usage within the function body and the default values of the parameters
 
         let def = module.function_registry.get_function_implementation(id);
         if let Some(def) = def {
+            for param in &def.params {
+                if let Some(default_expr) = &param.default_expr {
+                    gather_usage_for_expression(default_expr, &mut usage);
+                }
+            }
             gather_usage_for_scope_block(&def.scope_block, &mut usage);
         }
 
